@@ -117,6 +117,11 @@ class Verifier(Engine):
                 elif isinstance(ty, str) and ty.startswith("file:"):
                     st.env[name] = self.new_file(st, name, ty.split(":")[1])
                     label.append(f"{name}={ty.split(':')[1]}")
+                elif isinstance(ty, str) and ty.startswith("class:"):
+                    st.env[name] = VConst(ty[6:], "class")
+                elif isinstance(ty, str) and ty.startswith("cstruct:"):
+                    from .heapmodel import sym_cstruct
+                    st.env[name] = sym_cstruct(self, st, name, ty)
                 elif isinstance(ty, str) and ty.startswith("obj:"):
                     from .heapmodel import sym_object
                     st.env[name] = sym_object(self, st, name, ty[4:])
